@@ -51,13 +51,19 @@ def r1_rollback(run, w):
       main = t
   if main is None:
     raise AnalysisError("apply_user_actions: guarded user-action loop not found")
-  def over_actions(it):
+  lflow = Flow(fn)
+  def over_actions(s_):
+    ks = lflow.where(s_)
+    it = lflow.inline(s_.iter, ks[0], stop=(p_actions,)) if ks else s_.iter
     while isinstance(it, ast.Call) and dotted(it.func) in ("list", "iter", "tuple", "enumerate") \
         and len(it.args) == 1:
       it = it.args[0]
     return isinstance(it, ast.Name) and it.id == p_actions
   loops = [s for b_ in main.body for s in ast.walk(b_)
-           if isinstance(s, ast.For) and over_actions(s.iter)]
+           if isinstance(s, ast.For) and over_actions(s)]
+  if not loops:
+    raise AnalysisError("apply_user_actions: no loop over the user actions found in the guarded "
+                        "region")
   run.ob(R1, fn.qualname, "for user_action in %s: ... _apply_one_user_action" % p_actions,
          "every user action of the bundle is applied inside the guarded region",
          len(loops) == 1 and any(endswith(cname(fn, c), "_apply_one_user_action")
@@ -82,7 +88,7 @@ def r1_rollback(run, w):
   run.ob(R1, fn.qualname, "self.out_actions = ActionGroup() before the checkpoint",
          "the checkpoint refers to this bundle's own action lists",
          bool(newgrp) and cfg.dominated_by(cpnode.id, newgrp) and
-         not (cfg.reach_after({cpnode.id}) & newgrp), fi=fn.fi)
+         not (cfg.reach_after({cpnode.id}) & newgrp), fi=fn.fi, missing=not newgrp)
   handlers = [h for h in main.handlers if _catch_all(h)]
   run.ob(R1, fn.qualname, "except Exception", "the guarded region has a catch-all handler",
          len(handlers) >= 1 and _catch_all(main.handlers[0]), fi=fn.fi, node=main)
@@ -96,7 +102,7 @@ def r1_rollback(run, w):
                                                exits={cfg.exit.id, cfg.raise_exit.id})
       run.ob(R1, fn.qualname, "handler -> self._undo_to_checkpoint(%s)" % cpvar,
              "every path through the handler undoes to the checkpoint taken before the bundle",
-             ok, fi=fn.fi, node=h)
+             ok, fi=fn.fi, node=h, missing=not undo)
       # the handler never completes normally: it re-raises
       after = cfg.reach_after({x.id})
       body_nodes = {n.id for n in cfg.nodes if n.stmt is not None and
@@ -129,7 +135,7 @@ def r2_undo_first(run, w):
       wit = cfg.describe_path(cfg.path(cfg.entry.id, {bad[0]}, removed=prim))
     run.ob(R2, fn.qualname, "undo record dominates every mutation",
            "the inverse is on the undo list before any cell changes", not bad, witness=wit,
-           fi=fn.fi, node=cfg.nodes[bad[0]].stmt if bad else None)
+           fi=fn.fi, node=cfg.nodes[bad[0]].stmt if bad else None, missing=not prim)
 
 
 def r3_schema_restore(run, w):
@@ -197,7 +203,7 @@ def r3_schema_restore(run, w):
         wit = cfg.describe_path(p_)
   run.ob(R3, fn.qualname, "saved = schema.clone_schema(self.schema) on the schema-action branch",
          "a fresh copy of the schema is taken before every schema doc action is dispatched", ok,
-         witness=wit, fi=fn.fi, node=tnode.stmt)
+         witness=wit, fi=fn.fi, node=tnode.stmt, missing=not clones)
   # _schema_updated = True before dispatch on that branch
   flag = {n.id for n in cfg.nodes if n.kind == "stmt" and isinstance(n.stmt, ast.Assign) and
           text(n.stmt.targets[0]) == "self._schema_updated" and
@@ -205,7 +211,7 @@ def r3_schema_restore(run, w):
   reach = cfg.reach(body_first, removed=flag)
   run.ob(R3, fn.qualname, "self._schema_updated = True on the schema-action branch",
          "the consistency assertion is armed before the schema can change",
-         bool(flag) and not (reach & disp), fi=fn.fi)
+         bool(flag) and not (reach & disp), fi=fn.fi, missing=not flag)
   # the handler around the dispatch
   dstmts = [cfg.nodes[d].stmt for d in disp]
   trys = [s for s in ast.walk(fn.node) if isinstance(s, ast.Try) and
@@ -333,7 +339,12 @@ def r4_formula_side_effects(run, w):
   undo = {n.id for (n, c, nm) in calls_E(fn) if endswith(nm, "_undo_to_checkpoint") and
           nargs(c) == 1 and argn(w, fn, c, 0) is not None and
           flow.denotes(argn(w, fn, c, 0), n.id, lambda v, k: v is cpnode.stmt.value)}
-  bare = [n for n in cfg.nodes if n.kind == "handler" and n.stmt.type is None]
+  def catches_everything(h):
+    if h.type is None:
+      return True
+    hs = h.type.elts if isinstance(h.type, ast.Tuple) else [h.type]
+    return any(dotted(x) == "BaseException" for x in hs)
+  bare = [n for n in cfg.nodes if n.kind == "handler" and catches_everything(n.stmt)]
   run.ob(R4, fn.qualname, "bare except around the user code",
          "every exception of user code, BaseException included, reaches the undoing branch",
          len(bare) >= 1, fi=fn.fi)
@@ -341,7 +352,8 @@ def r4_formula_side_effects(run, w):
     ok = bool(undo) and cfg.postdominated_by(b.id, undo, exits={cfg.exit.id, cfg.raise_exit.id})
     run.ob(R4, fn.qualname, "except: ... self._undo_to_checkpoint(%s)" % cpvar,
            "every path out of the error branch (returning the error value or re-raising the order "
-           "error) first undoes the formula's doc actions", ok, fi=fn.fi, node=b.stmt)
+           "error) first undoes the formula's doc actions", ok, fi=fn.fi, node=b.stmt,
+           missing=not undo)
   gv = w.fn("engine.Engine.get_formula_value")
   cfg = gv.xcfg
   cps = [(n, n.stmt.targets[0].id) for n in cfg.nodes if n.kind == "stmt" and
@@ -360,7 +372,7 @@ def r4_formula_side_effects(run, w):
     cfg.postdominated_by(e, undo, exits={cfg.exit.id, cfg.raise_exit.id}) for e in ev)
   run.ob(R4, gv.qualname, "try: _recompute_one_cell(...) finally: _undo_to_checkpoint(%s)" % cpvar,
          "read-only evaluation undoes its side effects on normal and exceptional paths", ok,
-         fi=gv.fi)
+         fi=gv.fi, missing=not undo)
 
 
 # Calls allowed in apply_user_actions outside the guarded region, with the reason each is safe
